@@ -665,7 +665,7 @@ def sched_clean_after_failures(req):
 
 def _load_all():
     import importlib
-    for m in ("sc_core", "sc_tools", "sc_misc", "sc_random"):
+    for m in ("sc_core", "sc_tools", "sc_misc", "sc_random", "sc_more"):
         try:
             importlib.import_module(m)
         except ModuleNotFoundError as e:
